@@ -1120,7 +1120,8 @@ CTORS = {'flat': ['from_spl', 'from_db', 'from_pascals', 'from_mv_pa', 'unity', 
          'interp': ['from_spl', 'from_db', 'from_pascals'], 'point': ['from_spl', 'from_db', 'from_pascals']}
 
 
-def _ctor_case(rng, cls=None, name=None, wide=False):
+def _ctor_case(rng, cls=None, name=None, wide=False, opt=None):
+    """opt 0 / 1 / 2 force the default vrms / a fixed_gain keyword / both (every constructor gets each in every tier)."""
     cls = cls or rng.choice(['flat', 'interp', 'point'])
     name = name or rng.choice(CTORS[cls])
     nf = 1 if cls == 'flat' else rng.randint(2, 4)
@@ -1154,12 +1155,12 @@ def _ctor_case(rng, cls=None, name=None, wide=False):
             'arg_form': rng.choice(['array', 'list', 'tuple', 'intlist', 'int', 'series']),
             'form_f': rng.choice(['array', 'list', 'tuple', 'int', 'intlist'])}
     if name != 'unity':
-        if rng.random() < 0.4:
+        if rng.random() < 0.4 or opt in (1, 2):
             case['fixed_gain'] = rng.choice([float(rng.randint(-40, 40)), 0.0]) if nkind != 'float' else \
                 rng.choice([float(rng.randint(-40, 40)), rng.uniform(-40, 40)])
         if rng.random() < 0.2:
             case['attrs'] = True
-        if 'vrms' in A and rng.random() < 0.25:
+        if 'vrms' in A and (rng.random() < 0.25 or opt in (0, 2)):
             case['omit_vrms'] = True
             A['vrms'] = 1.0
     if name == 'from_mv_pa':
@@ -1237,8 +1238,8 @@ def cases(tier, rng):
     quick = tier == 'quick'
     for cls, names in CTORS.items():
         for name in names:
-            for _ in range(8 if quick else 80):
-                yield _ctor_case(rng, cls, name)
+            for j in range(8 if quick else 80):
+                yield _ctor_case(rng, cls, name, opt=j)
     for _ in range(200 if quick else 4000):
         yield _lookup_case(rng, 'interp')
     for _ in range(130 if quick else 2500):
